@@ -9,7 +9,7 @@ VERIF = os.path.dirname(HERE)
 
 META = {
     "C01": dict(
-        text="Static necessary conditions of spec agreement: keyword tables equal the draft vocabularies; every type-restricted keyword is gated on its JSON type on every CFG path to an error or descent; scalar assertion keywords are reduced to finite truth tables over (gate, modifier, trichotomy) and compared with the specification's per draft; schema regexes are searched unanchored and verbatim; applicators iterate the whole keyword value; type predicates are evaluated abstractly over the 8 JSON value classes. Not decided: combination semantics on concrete (schema, instance) pairs.",
+        text="Static necessary conditions of spec agreement: keyword tables equal the draft vocabularies; every type-restricted keyword is gated on its JSON type on every CFG path to an error or descent; scalar assertion keywords are reduced to finite truth tables over (gate, modifier, trichotomy) and compared with the specification's per draft; schema regexes are searched unanchored and verbatim; applicators iterate the whole keyword value; type predicates are evaluated abstractly over the 8 JSON value classes; neither a subschema nor an instance member is ever used as a condition; keyword code reads only the schema object it was called with. Not decided: combination semantics on concrete (schema, instance) pairs.",
         note="Trusted: the specification tables in sa/spec.py (Appendix B of DESIGN.md); Python comparison semantics on numbers.",
         technique="static analysis: table/data agreement, CFG must-pass-through, finite truth-table extraction", ref="5/C01"),
     "C02": dict(
@@ -29,15 +29,15 @@ META = {
         note="Trusted: spec sibling table (Appendix B.2).",
         technique="static analysis: CFG loop-exit rule, schema-key read sets, effect analysis", ref="5/C05"),
     "C06": dict(
-        text="Static provenance at each descend call site: path=/schema_path= arguments are the very index/key that selected the instance part / subschema descended into; dispatcher stamps (k, v) of the same table entry; descend prepends to the right deque guarded by `is not None`; absolute = parent ++ relative. Not decided: json_path rendering, navigation through $ref on concrete data.",
+        text="Static provenance at each descend call site: path=/schema_path= arguments are the very index/key that selected the instance part / subschema descended into; dispatcher stamps (k, v) of the same table entry; descend prepends to the right deque guarded by `is not None`; absolute = parent ++ relative; json_path walks absolute_path and renders indices and names by different statements; the pointer pipeline behind `$ref` stepping (shared with C14). Not decided: navigation on concrete data.",
         note="Trusted: collections.deque semantics.",
         technique="static analysis: symbolic provenance terms over loop targets (def-use)", ref="5/C06"),
     "C07": dict(
-        text="Static: effect/alias analysis shows no validation-reachable function mutates anything reachable from instance/schema/keyword values/documents or any validator/checker field; typestate over the CFG (with exception and generator-close edges) shows every scope push is undone on every exit; the store is written only with a retrieved document outside handlers; caches are only called. Not decided: prompt finalisation of abandoned generators (assumed), concrete history equivalence.",
+        text="Static: effect/alias analysis shows no validation-reachable function mutates anything reachable from instance/schema/keyword values/documents or any validator/checker field; typestate over the CFG (with exception and generator-close edges) shows every scope push is undone on every exit; the store is written only with a retrieved document, under the requested URI, outside handlers; caches are only called and nothing memoised reads the scope stack; store keys are no coarser than URI-minus-empty-fragment. Not decided: prompt finalisation of abandoned generators (assumed), concrete history equivalence.",
         note="Trusted: CPython reference-counting finalisation of generators; lru_cache does not cache exceptions.",
         technique="static analysis: write-effect/alias analysis over the call graph, typestate on CFG", ref="5/C07"),
     "C08": dict(
-        text="Static: const/enum/uniqueItems relate instance-derived and schema-derived values only through the one normaliser (or under a path condition excluding every value the normaliser changes); the normaliser separates booleans from numbers (abstract evaluation over value classes); the relation is applied at every depth. Not decided: numeric equality of Python == (language semantics).",
+        text="Static: const/enum/uniqueItems relate instance-derived and schema-derived values only through the one normaliser (or under a path condition excluding every value the normaliser changes); the normaliser separates booleans from numbers (abstract evaluation over value classes); the relation is applied at every depth; member-wise code never substitutes a JSON value for an absent member nor truncates. Not decided: numeric equality of Python == (language semantics).",
         note="Trusted: Python == on int/float/str/list/dict.",
         technique="static analysis: taint/provenance of comparison operands, abstract evaluation of the normaliser", ref="5/C08"),
     "C09": dict(
@@ -53,11 +53,11 @@ META = {
         note="Trusted: json module parsing of the bundled files.",
         technique="static analysis: structural wiring check + data closure checks on metaschema files", ref="5/C11"),
     "C12": dict(
-        text="Static: format yields only under checker-present; only FormatError is converted and its cause forwarded; check returns early on unknown names, catches exactly `raises`, raises FormatError iff falsy result; conforms wraps check; every registered built-in checker passes non-strings before touching the instance (CFG must-pass-through on all registration branches).",
+        text="Static: format yields only under checker-present; only FormatError is converted and its cause forwarded; check returns early on unknown names, catches exactly `raises`, raises FormatError iff falsy result; conforms wraps check; every registered built-in checker passes non-strings before touching the instance (CFG must-pass-through on all registration branches); the subset constructor walks its `formats` iterable once.",
         note="Trusted: none beyond Python semantics; is_uri_template note when uritemplate absent.",
         technique="static analysis: CFG must-pass-through, handler-shape rules", ref="5/C12"),
     "C13": dict(
-        text="Static: each built-in checker's `raises` covers everything its delegate can raise on arbitrary strings (callee exception model); results on the string path are verdict-truthy; no checker delegates bare to a parser known to accept a strict superset of its grammar. Not decided: exactness of stdlib grammars.",
+        text="Static: each built-in checker's `raises` covers everything its delegate can raise on arbitrary strings (callee exception model); results on the string path are verdict-truthy; no checker delegates bare to a parser known to accept a strict superset of its grammar; the email verdict is evaluated over the three positions of the first @. Not decided: exactness of stdlib grammars.",
         note="Trusted: callee exception/grammar model of ipaddress, datetime, re, idna (4.3).",
         technique="static analysis: exception-effect containment against a callee model", ref="5/C13"),
     "C14": dict(
@@ -85,7 +85,7 @@ META = {
         note="Trusted: json.load exception model.",
         technique="static analysis: CFG dominators/loop exits, abstract interpretation over {zero, nonzero}, handler coverage", ref="5/C19"),
     "C20": dict(
-        text="Static: validator_for reads $schema through the normalising registry, returns default for boolean/missing, warns and returns latest for unknown; _LATEST_VERSION is the highest draft; validate() and CLI call it only when no class is given; registration only adds entries; each draft's metaschema id lives under the key its class reads.",
+        text="Static: validator_for reads $schema through the normalising registry, returns default for boolean/missing, warns and returns latest for unknown; _LATEST_VERSION is the highest draft; validate() and CLI call it only when no class is given; registration only adds entries; each draft's metaschema id lives under the key its class reads; every package-side RefResolver.from_schema forwards the class's id_of.",
         note="Trusted: urlsplit().geturl() normalisation.",
         technique="static analysis: CFG edge rules, who-may-write registries, data agreement", ref="5/C20"),
 }
